@@ -38,7 +38,7 @@ T(i) == [const |-> Num(Mark[i])]
 SpecialKeys == {<<"U_e1">>, <<"$ref">>, <<"#">>, <<"?">>, <<"0", "1">>, <<"U_e1", "/", "a">>, <<"~", "U_e1">>}
 KeyStrs == {Join(k) : k \in Tokens \cup SpecialKeys}
 PropR(rf) == [properties |-> [r |-> [ref |-> rf]]]
-Dr(kw) == IF kw \in {"itemsArray", "additionalItems", "depSchemas", "definitions"} THEN "d7" ELSE "2020"
+Dr(kw) == IF kw \in {"itemsArray", "additionalItems", "depSchemas", "definitions", "chain7"} THEN "d7" ELSE "2020"
 Stamp(kw, s) == IF Dr(kw) = "d7" THEN s @@ [schema |-> D7http] ELSE s
 Doc1(s) == [docs |-> <<[uri |-> EmptyURI, s |-> s]>>]
 Inst == [i \in 1..4 |-> Obj([r |-> Num(Mark[i])])]
@@ -95,6 +95,12 @@ ShadowCases ==
 TruncKeys == ("U_L/x" :> <<"U_L", "/", "x">>) @@ ("A/x" :> <<"A", "/", "x">>)
 TruncTwins == {[u |-> Doc1(Stamp(kw, (kw :> ((pr[1] :> T(1)) @@ (pr[2] :> T(2)))) @@ PropR(LocalRef(FragPtr(<<SegN(kw, pr[1])>>))))), kw |-> kw, keys |-> TruncKeys]
                  : kw \in {"defs", "definitions", "dependentSchemas"}, pr \in {<<"U_L/x", "A/x">>, <<"A/x", "U_L/x">>}}
+\* a pointer to a subschema that is itself only a reference (a -> c, b -> a, r -> b): every reference designates
+\* precisely the location its pointer names, not what that location goes on to refer to (the whole table is compared)
+ChainDoc(dk) == (dk :> [a |-> [ref |-> LocalRef(FragPtr(<<SegN(dk, "c")>>))], b |-> [ref |-> LocalRef(FragPtr(<<SegN(dk, "a")>>))], c |-> T(1),
+                        d |-> [ref |-> LocalRef(FragPtr(<<SegN(dk, "b")>>))]])
+                @@ PropR(LocalRef(FragPtr(<<SegN(dk, "d")>>)))
+ChainCases == {[u |-> Doc1(ChainDoc("defs")), kw |-> "chain"], [u |-> Doc1(ChainDoc("definitions") @@ [schema |-> D7http]), kw |-> "chain7"]}
 \* depth 2: a keyword under a keyed / indexed parent
 NestCases ==
   {[u |-> Doc1([defs |-> (k :> [properties |-> (k2 :> T(1)) @@ ("zz" :> T(2)), allOf |-> <<T(3)>>])]
@@ -180,7 +186,7 @@ GoodRaw == {<<Join(g[1]), g[2]>> : g \in GoodRawAtoms}
 BadCases == {[u |-> Doc1(BadDoc @@ [properties |-> [p |-> TN(5), r |-> [ref |-> Ref(EmptyURI, [k |-> "raw", s |-> Join(pa)])]] @@ ("p/x" :> TN(6))]), kw |-> "bad", raw |-> Join(pa), atoms |-> pa, want |-> 99] : pa \in BadPtrAtoms}
             \cup {[u |-> Doc1(BadDoc @@ [properties |-> [p |-> TN(5), r |-> [ref |-> Ref(EmptyURI, [k |-> "raw", s |-> Join(g[1])])]] @@ ("p/x" :> TN(6))]), kw |-> "good", raw |-> Join(g[1]), atoms |-> g[1], want |-> g[2]] : g \in GoodRawAtoms}
 
-Cases == CASE Family = "P1" -> SingleCases \cup SeqCases \cup MapCases \cup TwinCases \cup TruncTwins \cup ShadowCases \cup AnchorLikePointer \cup TwoResources \cup NestCases
+Cases == CASE Family = "P1" -> SingleCases \cup SeqCases \cup MapCases \cup TwinCases \cup TruncTwins \cup ChainCases \cup ShadowCases \cup AnchorLikePointer \cup TwoResources \cup NestCases
            [] Family = "P2" -> BadCases
 
 Init == cs \in Cases /\ phase = "new"
@@ -194,7 +200,7 @@ ASSUME IndexLaw
 
 \* the $ref designates exactly the location its pointer was built from
 Designated ==
-  (Family = "P1" /\ phase = "done") =>
+  (Family = "P1" /\ phase = "done" /\ cs.kw \notin {"chain", "chain7"}) =>
      LET a == Addr(1, <<SegN("properties", "r")>>)
          t == Designates(cs.u, Dr(cs.kw), a, Node(cs.u, a).ref)
      IN t # NoTarget /\ t.p = Node(cs.u, a).ref.f.p /\ Node(cs.u, t) = T(1)
